@@ -8,10 +8,12 @@ import (
 	"fmt"
 	"io"
 	"net/http"
+	"reflect"
 	"sort"
 	"strconv"
 	"strings"
 	"testing"
+	"unsafe"
 
 	"github.com/imroc/req/v3/internal"
 	"github.com/imroc/req/v3/internal/verifh"
@@ -29,6 +31,45 @@ import (
 // ---------------------------------------------------------------------------------------
 
 var errC02Reset = errors.New("c02: connection reset by scripted peer")
+
+// c02FieldOfType returns, settable, the one field of the struct *ptr whose type is typ — found
+// by TYPE, not by name, so that renaming an unexported field does not break the harness.
+// ok=false when there is none or more than one.
+func c02FieldOfType(ptr interface{}, typ reflect.Type) (reflect.Value, bool) {
+	v := reflect.ValueOf(ptr).Elem()
+	idx := -1
+	for i := 0; i < v.NumField(); i++ {
+		if v.Type().Field(i).Type == typ {
+			if idx >= 0 {
+				return reflect.Value{}, false
+			}
+			idx = i
+		}
+	}
+	if idx < 0 {
+		return reflect.Value{}, false
+	}
+	f := v.Field(idx)
+	return reflect.NewAt(f.Type(), unsafe.Pointer(f.UnsafeAddr())).Elem(), true
+}
+
+// c02NewBodyEOFSignal builds the wrapper persistConn.readLoop puts around a response body (the
+// type has no constructor: readLoop uses a literal). Its three inputs are identified by type:
+// the wrapped io.ReadCloser, the func(error) error completion hook, the func() error
+// early-close hook. nil when the struct no longer has exactly that shape.
+func c02NewBodyEOFSignal(rc io.ReadCloser) io.ReadCloser {
+	es := new(bodyEOFSignal)
+	fb, ok1 := c02FieldOfType(es, reflect.TypeOf((*io.ReadCloser)(nil)).Elem())
+	ff, ok2 := c02FieldOfType(es, reflect.TypeOf((func(error) error)(nil)))
+	fe, ok3 := c02FieldOfType(es, reflect.TypeOf((func() error)(nil)))
+	if !ok1 || !ok2 || !ok3 {
+		return nil
+	}
+	fb.Set(reflect.ValueOf(rc))
+	ff.Set(reflect.ValueOf(func(err error) error { return err }))
+	fe.Set(reflect.ValueOf(func() error { return nil }))
+	return es
+}
 
 // c02SegReader delivers one segment (or the part that fits) per Read.
 type c02SegReader struct {
@@ -65,8 +106,6 @@ func c02IOErrClass(err error) string {
 		return "reset"
 	case err == internal.ErrLineTooLong:
 		return "lineTooLong"
-	case err == errTrailerEOF:
-		return "trailerEOF"
 	case err == http.ErrBodyReadAfterClose:
 		return "readAfterClose"
 	case err == bufio.ErrBufferFull:
@@ -79,6 +118,8 @@ func c02IOErrClass(err error) string {
 		return "invalidChunkLen"
 	case msg == "http chunk length too large":
 		return "chunkTooLarge"
+	case strings.Contains(msg, "unexpected EOF reading trailer"):
+		return "trailerEOF"
 	case strings.Contains(msg, "suspiciously long trailer"):
 		return "longTrailer"
 	case strings.Contains(msg, "malformed MIME header"):
@@ -383,14 +424,14 @@ func TestVerif_C02_h1body(t *testing.T) {
 				impl = "readTransfer-error:" + err.Error()
 				return
 			}
-			if _, ok := resp.Body.(*body); !ok {
-				impl = fmt.Sprintf("unexpected body type %T", resp.Body)
-				return
-			}
-			es := &bodyEOFSignal{
-				body:         resp.Body,
-				earlyCloseFn: func() error { return nil },
-				fn:           func(err error) error { return err },
+			var es io.Reader = resp.Body
+			if w := c02NewBodyEOFSignal(resp.Body); w != nil {
+				es = w
+				s.Count("via-bodyEOFSignal")
+			} else {
+				// shape of bodyEOFSignal changed: read the body reader directly (the wrapper
+				// is still exercised through the real readLoop by lane e2eh1)
+				s.Count("no-bodyEOFSignal-wrapper")
 			}
 			var ns []int
 			var data []byte
